@@ -1,18 +1,40 @@
 #!/bin/bash
-# usage: tools/confirm_mutation.sh <worktree>   (an agent's worktree with _mutation/)
-# Confirms: the change compiles, the existing suite passes with it, the
-# demonstration fails with it and passes without it.
+# usage: tools/confirm_mutation.sh <id>      (agent worktree /tmp/wt/<id> with _mutation/patch.diff)
+# In a fresh scratch worktree of /repo HEAD: the change applies and compiles,
+# the existing suite passes with it, the demonstration fails with it and
+# passes without it. The scratch worktree is removed afterwards.
 set -u
 export GOFLAGS=-mod=mod GOPROXY=off GOSUMDB=off GOTOOLCHAIN=local
-wt=$1
-cd $wt || exit 2
-demo=$(git status --porcelain | grep -E "zz_mutation_demo.*_test.go" | awk '{print $2}' | head -1)
-echo "demo file: $demo"
-pkg=./$(dirname "$demo")
+id=$1
+src=/tmp/wt/$id
+scratch=/tmp/confirm-$id
+git -C /repo worktree remove --force $scratch 2>/dev/null
+git -C /repo worktree add -q --detach $scratch HEAD || exit 2
+cd $scratch
+res="?"
+if ! git apply $src/_mutation/patch.diff; then echo "RESULT $id patch-does-not-apply"; cd /; git -C /repo worktree remove --force $scratch; exit 1; fi
+if ! go build ./... ; then echo "RESULT $id does-not-compile"; cd /; git -C /repo worktree remove --force $scratch; exit 1; fi
+suite=$(go test -vet=off -count=1 ./... 2>&1 | grep -v "no test files")
+fails=$(echo "$suite" | grep -c "^FAIL\|^--- FAIL")
+nonflaky=$(echo "$suite" | grep "^--- FAIL" | grep -vc "TestHandlerHandleSignedLatency")
+echo "suite: fail-lines=$fails non-flaky-failures=$nonflaky"
+# demo files: untracked zz_* test files of the agent worktree (outside _mutation)
+demos=$(cd $src && git status --porcelain --untracked-files=all | awk '{print $2}' | grep -v "^_mutation/" | grep "_test.go$")
 race=""
-grep -qi "\-race" _mutation/NOTES.md 2>/dev/null && race="-race"
-echo "--- build with change"; go build ./... && echo build ok
-echo "--- suite with change (demo excluded)"; mv $demo /tmp/_demo_hold.go; go test -vet=off -count=1 ./... 2>&1 | grep -v "no test files" | tail -8; mv /tmp/_demo_hold.go $demo
-echo "--- demo with change (expect FAIL)"; go test $race -vet=off -count=1 -run 'Mutation|Demo|Zz|ZZ' $pkg 2>&1 | tail -4
-echo "--- demo without change (expect ok)"; git stash -q -- $(git diff --name-only | grep -v _test.go); go test $race -vet=off -count=1 -run 'Mutation|Demo|Zz|ZZ' $pkg 2>&1 | tail -3; git stash pop -q
-git status --short | head
+grep -qi "go test -race\|-race " $src/_mutation/NOTES.md 2>/dev/null && race="-race"
+pkgs=""
+for d in $demos; do mkdir -p $(dirname $d); cp $src/$d $d; pkgs="$pkgs ./$(dirname $d)"; done
+pkgs=$(echo $pkgs | tr ' ' '\n' | sort -u | tr '\n' ' ')
+names=$(grep -h "^func Test" $demos | sed 's/func \(Test[A-Za-z0-9_]*\).*/\1/' | tr '\n' '|' | sed 's/|$//')
+echo "demo: $demos  tests: $names race='$race'"
+with=$(go test $race -vet=off -count=1 -run "^($names)\$" $pkgs 2>&1 | tail -3 | tr '\n' ' ')
+git apply -R $src/_mutation/patch.diff
+without=$(go test $race -vet=off -count=1 -run "^($names)\$" $pkgs 2>&1 | tail -3 | tr '\n' ' ')
+echo "with change:    $with" | cut -c1-300
+echo "without change: $without" | cut -c1-300
+ok=yes
+echo "$with" | grep -q "FAIL" || ok=no-demo-does-not-fail
+echo "$without" | grep -q "FAIL" && ok=no-demo-fails-without
+[ "$nonflaky" != "0" ] && ok=no-suite-fails
+echo "RESULT $id confirmed=$ok"
+cd /; git -C /repo worktree remove --force $scratch
